@@ -256,7 +256,11 @@ theorem readData_ok (file : List Nat) (b e : Nat) (dt : DType) (n : Nat) (ws : L
           split at hgo
           · simp at hgo
           · rename_i m' hm'
-            have hmeq : m' = m := by split at hgo <;> simp at hgo; exact hgo
+            have hmeq : m' = m := by
+              split at hgo
+              · simp at hgo
+              · split at hgo <;> simp at hgo
+                exact hgo
             subst hmeq
             obtain ⟨h1, h2, h3⟩ := hmm _ _ hm'
             refine ⟨by simpa [totalBytes, hu] using hsz _ hs, by simpa [totalBytes, hu] using h1, h2, ?_⟩
